@@ -3,5 +3,6 @@ CONSTANTS
   Impl = "fixed"
   Reps <- TraceReps
   Wide = TRUE
+  Limits = {2097152, 5242880, 10485760}
 INVARIANTS Report
 CHECK_DEADLOCK FALSE
